@@ -213,7 +213,9 @@ def run_verus(unit_names, canary=False, seed=None, strict=False, keep=None, extr
         vr = (res.json or {}).get('verification-results')
         if compile_errors:
             res.json = None
-        if res.json is None or vr is None or vr.get('encountered-vir-error'):
+            vr = None
+        crashed = 'panicked at' in p.stderr or (vr is not None and vr.get('encountered-error') and not res.diags)
+        if res.json is None or vr is None or vr.get('encountered-vir-error') or crashed:
             res.fatal = 'verus did not reach verification:\n' + '\n'.join(
                 (dg.get('rendered') or dg.get('message', '')) for dg in res.diags[:6]) + (p.stderr[-1500:] if not res.diags else '')
         else:
